@@ -40,7 +40,7 @@ func loadKnown() []KnownFinding {
 // C06: the formatted output must parse to the same tree, i.e. the printers' parenthesisation (C03)).
 // C03/C05/C13: printing back, custom operators and the mode flags are stated relative to how the parser groups and where it
 // ends statements (C02); C06 additionally replays comments (C15); C08 builds on the token positions (C10) and the encoder
-// (C09); C15 on the lexer's trivia handling (C10). The table is closed under composition below.
+// (C09); C15 on the lexer's trivia handling (C10); C12 on how the lexer delimits tokens and literals (C10, C07). The table is closed under composition below.
 var propIncludes = closeIncludes(map[string][]string{
 	"C01": {"C02", "C03", "C07", "C06"},
 	"C03": {"C02"},
@@ -48,6 +48,7 @@ var propIncludes = closeIncludes(map[string][]string{
 	"C13": {"C02"},
 	"C06": {"C03", "C15"},
 	"C08": {"C09", "C10"},
+	"C12": {"C07", "C10"},
 	"C15": {"C10"},
 })
 
